@@ -203,7 +203,7 @@ theorem writerRun_winv (m : M) (w : WriteJob) (h : WInv m.1) (l : Life m.1) (c :
           · simp only [onSt_fst]; exact c.of_frame rfl rfl rfl rfl rfl rfl rfl rfl
           · simpa using hw
           · intro _ _
-            simp only [Bool.or_eq_true, bne_iff_ne, ne_eq, decide_eq_true_eq, Bool.not_eq_true', not_or,
+            simp only [Bool.or_eq_true, ne_eq, decide_eq_true_eq, Bool.not_eq_true', not_or,
               Decidable.not_not, Bool.not_eq_false] at hstale
             simpa using hstale
 
